@@ -61,11 +61,23 @@ const (
 	C11OtherClass   = "C02-001-20180601-20991231-002"
 )
 
+// c11End is the end date of the i-th batch: the LATER a batch starts, the EARLIER it ends (nested
+// vintages), so that no ordering by end date coincides with the ordering by start date.
+func c11End(i int) time.Time {
+	later := 0
+	for _, s := range c11Starts {
+		if s.After(c11Starts[i]) {
+			later++
+		}
+	}
+	return time.Date(2099, 1, 1, 0, 0, 0, 0, time.UTC).AddDate(0, 0, later)
+}
+
 // C11Denoms returns the batch denoms of the criteria scenario (class C01).
 func C11Denoms() []string {
 	var out []string
 	for i, s := range c11Starts {
-		out = append(out, fmt.Sprintf("C01-001-%s-%s-%03d", s.Format("20060102"), "20991231", i+1))
+		out = append(out, fmt.Sprintf("C01-001-%s-%s-%03d", s.Format("20060102"), c11End(i).Format("20060102"), i+1))
 	}
 	return out
 }
@@ -99,8 +111,8 @@ func Criteria() Spec {
 			Msg("seed:project C01-002", &basetypes.MsgCreateProject{Admin: a, ClassId: "C01", Metadata: "m", Jurisdiction: "US-OR"}),
 			Msg("seed:project BIO01-001", &basetypes.MsgCreateProject{Admin: a, ClassId: "BIO01", Metadata: "m", Jurisdiction: "US-WA"}),
 		)
-		for _, s := range c11Starts {
-			acts = append(acts, CreateBatch(A, "C01-001", s, end, true, nil, Iss(B, "10", "0"), Iss(C, "2", "0")))
+		for i, s := range c11Starts {
+			acts = append(acts, CreateBatch(A, "C01-001", s, c11End(i), true, nil, Iss(B, "10", "0"), Iss(C, "2", "0")))
 		}
 		acts = append(acts,
 			CreateBatch(A2, "C02-001", date(2023, 6, 1), end, true, nil, Iss(B, "10", "0")),  // class not allowed
